@@ -52,6 +52,9 @@ func genC11(t *rapid.T) c11Case {
 	if c.Kind == "legacy" && c.Phase >= 1 {
 		c.DupIn = rapid.IntRange(0, 3).Draw(t, "dupIn") == 0
 	}
+	if c.Kind == "legacy" && rapid.IntRange(0, 4).Draw(t, "lastChunk") == 0 {
+		c.Ending = "last-chunk" // the client (or a proxy in front) ends the RDG_IN_DATA body with the terminating zero-length chunk
+	}
 	if c.Kind == "ws" && c.Phase >= 4 && rapid.IntRange(0, 5).Draw(t, "stalled") == 0 {
 		// endings that need no response from the gateway (a response could not be written to a client that
 		// does not read; that combination is not explored, see DESIGN.md)
@@ -210,6 +213,8 @@ func runC11(c c11Case) *Violation {
 			if lg, ok := conn.(*gwc.Legacy); ok {
 				lg.Send([]byte{0}) // the reader needs another read to see the bad header when it arrived in pieces
 			}
+		case "last-chunk":
+			conn.(*gwc.Legacy).SendRawIn([]byte("0\r\n\r\n"))
 		case "fin", "rst":
 			switch cc := conn.(type) {
 			case *gwc.WS:
@@ -405,6 +410,8 @@ func TestC11_BIN(t *testing.T) {
 			}
 		case "unframeable":
 			conn.Send(append(tsgu.Header(tsgu.PktData, 3), 1, 2, 3, 4))
+		case "last-chunk":
+			conn.(*gwc.Legacy).SendRawIn([]byte("0\r\n\r\n"))
 		case "fin", "rst":
 			switch cc := conn.(type) {
 			case *gwc.WS:
